@@ -243,6 +243,110 @@ def register(reg):
 
         return simplify_sv(isdouble(D, tonum(p), toz3(x, want_real=True)))
 
+    # ---------------------------------------------------------------- readValue / writeValue
+    from pyvc.values import Opaque, PDict, PObj
+
+    def serializer_type(stream_t):
+        def mk(eng, name, I):
+            o = C.Obj(f"{M}:Serializer", stream=stream_t, allowPickle=C.Bool()).fresh(eng, name, I)
+            tyA = Opaque("CodecType", "type")
+            tyA.attrs = {"__name__": "CodecType"}
+            o.fields["codecs"] = PDict([(tyA, (Opaque("encoder"), Opaque("decoder")))])
+            o.fields["seenObjs"] = None
+            o._tyA = tyA
+            return o
+
+        return C.Ghost(mk, conc=lambda eng, model, val: {"allowPickle": eng.eval_model(model, val.fields["allowPickle"])})
+
+    def value_type(eng, name, I):
+        k = eng.choose(3, "ty?")
+        ser = I.ghost_current["self"]
+        if k == 0:
+            return ser._tyA
+        if k == 1:
+            t = Opaque("EncodableType", "type")
+            t.attrs = {"__name__": "EncodableType", "encodeTo": Opaque("encodeTo"), "decodeFrom": Opaque("decodeFrom")}
+            return t
+        t = Opaque("PlainType", "type")
+        t.attrs = {"__name__": "PlainType"}
+        return t
+
+    ty_t = C.Ghost(value_type, conc=lambda eng, model, val: val.name)
+    for fn in ("readValue", "writeValue"):
+        params = dict(self=serializer_type(C.Stream()), ty=ty_t) if fn == "readValue" else dict(self=serializer_type(C.Stream(at_end=True)), value=C.Const(Opaque("value")), ty=ty_t)
+        reg.add(
+            C.Contract(
+                f"{M}:Serializer.{fn}",
+                params=params,
+                # "corrupted data never makes decoding fail in any other way": whatever a codec, a
+                # decodeFrom method or pickle raises, only SerializationError leaves this function
+                raises=[C.Raises("SerializationError", mode="may")],
+                ensures={"returns_something": "True"},
+                replay=replay_value_wrapper(fn),
+                properties=("C18",),
+            )
+        )
+
+    # ---------------------------------------------------------------- scene header
+    @reg.spec
+    def u16_at(D, p):
+        p = tonum(p)
+        return SV(z3.Select(D, p) + 256 * z3.Select(D, p + 1))
+
+    @reg.spec
+    def bytes_eq_at(D, p, b):
+        return bytes_at_stream(D, p, b)
+
+    def scenario_t(eng, name, I):
+        sc = PObj("Scenario", tag=name)
+        sc.fields["astHash"] = C.Bytes().fresh(eng, name + ".astHash", I)
+        eng.assume(sc.fields["astHash"].length == 4)
+        co = PObj("CompileOptions", tag=name + ".compileOptions")
+        co.fields["hash"] = C.Bytes().fresh(eng, name + ".optionsHash", I)
+        eng.assume(co.fields["hash"].length == 4)
+        sc.fields["compileOptions"] = co
+        sc.fields["dependencies"] = Opaque("dependencies")
+        mk = Opaque("_makeSceneFromSample")
+        mk.total = True
+        sc.fields["_makeSceneFromSample"] = mk
+        return sc
+
+    def conc_scenario(eng, model, val):
+        return {"astHash": C.Bytes().concretize(eng, model, val.fields["astHash"]), "optionsHash": C.Bytes().concretize(eng, model, val.fields["compileOptions"].fields["hash"])}
+
+    reg.add(
+        C.Contract(
+            f"{M}:Serializer.readSample",
+            params=dict(self=serializer_type(C.Stream()), objects=C.Const(Opaque("objects"))),
+            # assumed interface contract of sample decoding (verified per node kind below): it may fail with
+            # any exception on corrupt data (e.g. IndexError from a multiplexer index), never changes the data
+            raises=[C.Raises("SerializationError", mode="may"), C.Raises("Exception", mode="may")],
+            result=C.Const(Opaque("sample")),
+            modifies=["self.stream.pos"],
+            ensures={"frame": "self.stream.length == old(self.stream.length)"},
+            call_only=True,
+            properties=(),
+        )
+    )
+    reg.add(
+        C.Contract(
+            f"{M}:Serializer.readScene",
+            params=dict(self=serializer_type(C.Stream()), scenario=C.Ghost(scenario_t, conc_scenario), verify=C.Bool()),
+            inline=["Serializer.sceneFormatVersion"],
+            raises=[C.Raises("SerializationError", mode="may")],
+            ensures={
+                # data from a different format version, program or compile options are refused
+                "version_checked": "old(self.stream.length) - old(self.stream.pos) >= 2 and u16_at(old(self.stream.data), old(self.stream.pos)) == 3",
+                "program_checked": "implies(verify, old(self.stream.length) - old(self.stream.pos) >= 6"
+                " and bytes_eq_at(old(self.stream.data), old(self.stream.pos) + 2, scenario.astHash))",
+                "options_checked": "implies(verify, old(self.stream.length) - old(self.stream.pos) >= 10"
+                " and bytes_eq_at(old(self.stream.data), old(self.stream.pos) + 6, scenario.compileOptions.hash))",
+            },
+            replay=replay_readScene,
+            properties=("C18",),
+        )
+    )
+
 
 # -------------------------------------------------------------------------------------------------
 # replay drivers: model -> real objects -> real call -> executable form of the clause
@@ -366,4 +470,66 @@ def replay_readFloat(inputs, clause):
         return f"readFloat failed with {type(e).__name__} on {rest!r}"
     if len(rest) < 8:
         return f"readFloat silently decoded {r!r} from the {len(rest)}-byte input {rest!r}"
+    return None
+
+
+def replay_value_wrapper(fn):
+    def replay(inputs, clause):
+        from scenic.core import serialization as S
+
+        class Weird:
+            pass
+
+        def boom(*a):
+            raise KeyError("corrupt")
+
+        kind = inputs.get("ty")
+        ser = S.Serializer(b"\x00" * 4, allowPickle=bool(inputs["self"].get("allowPickle")))
+        if kind == "CodecType":
+            ser.codecs = dict(ser.codecs)
+            ser.codecs[Weird] = (boom, boom)
+        elif kind == "EncodableType":
+            Weird.encodeTo = classmethod(lambda cls, v, st: boom())
+            Weird.decodeFrom = classmethod(lambda cls, st: boom())
+        try:
+            if fn == "readValue":
+                ser.readValue(Weird)
+            else:
+                ser.writeValue(Weird(), Weird)
+        except S.SerializationError:
+            return None
+        except Exception as e:
+            return f"Serializer.{fn} let {type(e).__name__} escape (type kind {kind})"
+        return None
+
+    return replay
+
+
+def replay_readScene(inputs, clause):
+    """Byte-level mutations of a real encoded scene (header fields and body) through the real decoder."""
+    import scenic
+    from scenic.core import serialization as S
+
+    sc = scenic.scenarioFromString("ego = new Object with foo Uniform('a','b','c'), with bar Range(0, 1)\n")
+    scene, _ = sc.generate(maxIterations=100)
+    good = sc.sceneToBytes(scene)
+    verify = bool(inputs.get("verify", True))
+    cases = [("truncate@%d" % n, good[:n]) for n in range(len(good))]
+    for i in range(len(good)):
+        for val in (0xFF, 0x7F, 200, 0):
+            if good[i] != val:
+                b = bytearray(good)
+                b[i] = val
+                cases.append(("byte %d := %d" % (i, val), bytes(b)))
+    for what, data in cases:
+        try:
+            S.Serializer(data).readScene(sc, verify=verify)
+        except S.SerializationError:
+            continue
+        except Exception as e:
+            return f"readScene({what}, verify={verify}) failed with {type(e).__name__}: {e} instead of SerializationError"
+        if verify and data[:10] != good[:10]:
+            return f"readScene accepted data with a different header ({what})"
+        if what.startswith("truncate"):
+            return f"readScene accepted truncated data ({what} of {len(good)} bytes)"
     return None
